@@ -174,7 +174,7 @@ Definition default_cfg : cfg := mkCfg [] false false.
    sets any subset of the options *)
 Record cfgdecl := mkCD {
   cd_inherit : bool;
-  cd_plain   : bool;                 (* not a subclass of BaseConfig (an inheriting Config is plain iff its parent is) *)
+  cd_plain   : bool;                 (* written `class Config:` (no bases) instead of `class Config(BaseConfig):` *)
   cd_aliases : option (list (string * string));
   cd_allow   : option bool;
   cd_forbid  : option bool
@@ -215,27 +215,6 @@ Definition nearest_cfg (ls: list level) : cfg := fold_left step_cfg ls default_c
 Definition class_of (ls: list level) (discr: option (option string)) : cls :=
   let g := nearest_cfg ls in
   mkC (effective ls) (g_aliases g) (g_allow g) (g_forbid g) discr.
-
-(* What CodeBuilder.get_config makes of the Config class it finds with getattr: a BaseConfig subclass is
-   used as it is; a plain class is merged as type("Config", (BaseConfig, C), {**BaseConfig.__dict__,
-   **C.__dict__}) -- the defaults of BaseConfig land in the new namespace, so only the attributes written
-   in C's *own* body survive, whatever C inherits from its own bases is shadowed. *)
-Definition last_cfgdecl (ls: list level) : option cfgdecl :=
-  fold_left (fun acc l => match l_cfg l with Some cd => Some cd | None => acc end) ls None.
-
-Definition builder_cfg (ls: list level) : cfg :=
-  match last_cfgdecl ls with
-  | Some cd => if cd_plain cd then apply_cd default_cfg cd else nearest_cfg ls
-  | None => default_cfg
-  end.
-
-Definition builder_class_of (ls: list level) (discr: option (option string)) : cls :=
-  let g := builder_cfg ls in
-  mkC (effective ls) (g_aliases g) (g_allow g) (g_forbid g) discr.
-
-(* no plain Config that derives from another Config *)
-Definition no_plain_inherit (ls: list level) : bool :=
-  forallb (fun l => match l_cfg l with Some cd => negb (cd_inherit cd && cd_plain cd) | None => true end) ls.
 
 Definition lookup_decl (n: string) (fs: list (fld * bool)) : option (fld * bool) :=
   find (fun p => String.eqb (f_name (fst p)) n) fs.
